@@ -75,8 +75,9 @@ class FakeFlow:
 class Target:
     """Gaussian likelihood of width `s` centred at `c`, normal or box prior; counts and logs calls."""
 
-    def __init__(self, dims, s=1.0, c=0.5, prior="normal", box=5.0):
+    def __init__(self, dims, s=1.0, c=0.5, prior="normal", box=5.0, nan_above=None):
         self.dims, self.s, self.c, self.prior, self.box = dims, s, c, prior, box
+        self.nan_above = nan_above
         self.calls = []          # ("prior"|"lik", n_points, prior_attached_ok)
         self.fail_at = None      # raise at the k-th call (0-based over both callables)
         self.ncalls = 0
@@ -85,7 +86,10 @@ class Target:
         return np.asarray(nsutil.to_list(samples.x), dtype=float).reshape(-1, self.dims)
 
     def L(self, x):
-        return -0.5 * np.sum((x - self.c) ** 2, axis=1) / self.s ** 2
+        v = -0.5 * np.sum((x - self.c) ** 2, axis=1) / self.s ** 2
+        if self.nan_above is not None:
+            v = np.where(x[:, 0] > self.nan_above, np.nan, v)
+        return v
 
     def Pi(self, x):
         if self.prior == "normal":
@@ -299,3 +303,55 @@ def split_iterations(events):
         else:
             cur["after"].append(e)
     return pre, its
+
+
+# ----------------------------------------------------------------------------- whole-sampler runs through Aspire
+PRECOND_OPTS = [
+    (None, None, {}),
+    ("default", {}, {}),
+    ("default", {"bounded_to_unbounded": True, "bounded_transform": "logit"}, {"bounds": True}),
+    ("default", {"bounded_to_unbounded": True, "bounded_transform": "probit", "affine_transform": True}, {"bounds": True}),
+    ("default", {"affine_transform": True}, {}),
+    ("default", {}, {"bounds": True, "periodic": True}),
+    ("none", None, {}),
+]
+
+
+def aspire_sample(kind, nsname, dims, N, seed, pre=None, pkw=None, opt=None, prior=None, s=1.0, flow_sigma=2.5, width="float64",
+                  sample_kwargs=None, target=None, callback=None):
+    """Aspire.sample_posterior for any sampler kind with the stub kernels. Returns (aspire, samples, target, flow)."""
+    import emcee
+    NS = nsutil.namespaces()
+    xp = NS[nsname]
+    dt = nsutil.native_dtype(nsname, width)
+    opt = opt or {}
+    prior = prior or ("box" if opt.get("bounds") else "normal")
+    tgt = target or Target(dims, s=s, c=0.3, prior=prior)
+    flow = FakeFlow(dims, sigma=flow_sigma, seed=seed % 1000)
+    akw = {}
+    if opt.get("bounds"):
+        akw["prior_bounds"] = {f"x_{i}": (-5.0, 5.0) for i in range(dims)}
+    if opt.get("periodic"):
+        akw["periodic_parameters"] = ["x_0"]
+    a = make_aspire(tgt, flow, xp, dt, dims, **akw)
+    emcee.reset_counter(seed % 997)
+    kw = dict(sample_kwargs or {})
+    rng = np.random.default_rng(seed)
+    if kind in ("minipcn_smc", "minipcn", "emcee"):
+        kw.setdefault("rng", rng)
+    if kind == "minipcn_smc":
+        kw.setdefault("sampler_kwargs", {"n_steps": 2})
+    elif kind == "emcee_smc":
+        kw.setdefault("sampler_kwargs", {"nsteps": 2, "progress": False})
+    elif kind == "minipcn":
+        kw.setdefault("n_steps", 3)
+    elif kind == "emcee":
+        kw.setdefault("nsteps", 3)
+        kw.setdefault("progress", False)
+    if callback is not None:
+        kw["checkpoint_callback"] = callback
+    pk = dict(pkw) if pkw is not None else None
+    out = a.sample_posterior(N, sampler=kind, preconditioning=pre, preconditioning_kwargs=pk, **kw)
+    if kind == "emcee_smc":
+        pass
+    return a, out, tgt, flow
